@@ -1015,7 +1015,7 @@ func c06Layer2(c *Ctx, up *world.Upstream, L, heavyL int, product []string, wls 
 // ---- layer 3: the positive clause
 
 var c06Segments = []string{"a", "B9", "-._~", "%41", "%2F", "+", ";", "=", "&", "%C3%A9"}
-var c06Queries = []string{"", "?x=1", "?a=%2F&b=+c", "?q=%C3%A9&r==", "?k"}
+var c06Queries = []string{"", "?x=1", "?a=%2F&b=+c", "?q=%C3%A9&r==", "?k", "?from=10%3A30&title=a%26b%3Dc", "?return_to=https%3A%2F%2Fapp.example.com%2Fx%3Fy%3D1", "?p=100%25&c=%3a"}
 
 func c06PlainPaths(depth int) []string {
 	var out []string
